@@ -39,12 +39,14 @@ MODES = ["offline", "dc-seed", "dc-public"]
 
 def plan(tier, seed):
     q = tier == "quick"
-    return [{"name": f"rt-{i}", "kind": "roundtrip", "n": 40 if q else 1300, "big": (not q) and i < 3} for i in range(16)]
+    specs = [{"name": f"rt-{i}", "kind": "roundtrip", "n": 40 if q else 1300, "big": (not q) and i < 3} for i in range(16)]
+    specs += [{"name": f"session-{i}", "kind": "session", "n": 150 if q else 4000} for i in range(4 if q else 16)]
+    return specs
 
 
 def finalize(agg, tier):
     r = []
-    for c in ("roundtrips_checked", "reference_decrypts", "relayout_checked", "clock_reads", "kdf_calls_metered", "stepmeter_samples"):
+    for c in ("roundtrips_checked", "reference_decrypts", "relayout_checked", "clock_reads", "kdf_calls_metered", "stepmeter_samples", "session_protects", "session_unprotects"):
         if agg.counter(c) == 0:
             r.append(f"monitor never reached: {c}")
     for m in MODES:
@@ -209,14 +211,88 @@ class _null:
         return False
 
 
+def run_session(spec, rec: Recorder):
+    """Stateful use: ONE KeyCache (offline root key) serves a long interleaving of protect calls at many clock values
+    (same L1/L2 slot in different L0 epochs, interval boundaries, time going backwards), several SIDs and both layouts,
+    and unprotect calls of blobs made earlier - through the same cache, a fresh cache and the reference implementation."""
+    import dpapi_ng
+    from dpapi_ng import _blob
+
+    mon.KDFS.install()
+    rng = common.rng_for(ID, spec)
+    h = common.HASHES[int(spec["name"].split("-")[1]) % 4]
+    rkid = uuid.UUID(int=rng.getrandbits(128))
+    rk = online.root_key(rng, h, "DH")
+    cache = dpapi_ng.KeyCache()
+    online.load_into_cache(cache, rkid, rk)
+    sids = [online.gen_sid(rng, n=k) for k in (1, 5, 15)]
+    slots = [(rng.randrange(32), rng.randrange(32)) for _ in range(3)] + [(31, 31), (0, 0), (31, 0), (0, 31)]
+    made: t.List[t.Tuple[bytes, bytes, str]] = []
+    loop = asyncio.new_event_loop()
+    asyncio.set_event_loop(loop)
+    try:
+        for i in range(spec["n"]):
+            if made and i % 3 == 2:
+                blob, pt, sid = made[rng.randrange(len(made))]
+                b = blob if rng.random() < 0.5 else _blob.DPAPINGBlob.unpack(blob).pack(blob_in_envelope=False)
+                route = rng.choice(["same", "same", "fresh"])
+                c = cache
+                if route == "fresh":
+                    c = dpapi_ng.KeyCache()
+                    online.load_into_cache(c, rkid, rk)
+                try:
+                    with mon.NET.guard():
+                        got = loop.run_until_complete(dpapi_ng.async_ncrypt_unprotect_secret(b, cache=c)) if i % 2 else dpapi_ng.ncrypt_unprotect_secret(b, cache=c)
+                except BaseException as e:
+                    rec.violation("unprotect-raised", f"session op {i}: unprotect via {route} cache raised {type(e).__name__}: {e}", {"shard": spec["name"], "op": i, "route": route})
+                    continue
+                rec.count("roundtrips_checked")
+                rec.count("session_unprotects")
+                if got != pt:
+                    rec.violation("roundtrip-mismatch", f"session op {i}: unprotect via {route} cache returned different bytes", {"shard": spec["name"], "op": i, "route": route})
+                continue
+            l1, l2 = rng.choice(slots)
+            l0 = rng.choice([361, 362, 363, 700, 340])
+            off = rng.choice([0, 1, B - 1, B // 2, rng.randrange(B)])
+            ft = (l0 * 1024 + l1 * 32 + l2) * B + off
+            sid = rng.choice(sids)
+            pt = b"session-%d-" % i + rng.randbytes(rng.choice([0, 1, 16, 100]))
+            try:
+                with mon.CLOCK.at_ns(mon.filetime_to_ns(ft, rng.randrange(100))), mon.NET.guard():
+                    if i % 2:
+                        blob = loop.run_until_complete(dpapi_ng.async_ncrypt_protect_secret(pt, sid, root_key_identifier=rkid, cache=cache))
+                    else:
+                        blob = dpapi_ng.ncrypt_protect_secret(pt, sid, root_key_identifier=rkid, cache=cache)
+            except BaseException as e:
+                rec.violation("protect-raised", f"session op {i}: protect at {(l0, l1, l2)}+{off} raised {type(e).__name__}: {e}", {"shard": spec["name"], "op": i})
+                continue
+            rec.count("session_protects")
+            made.append((blob, pt, sid))
+            try:
+                parts = cms.reference_decrypt_parts(cms.parse(blob), {rkid: rk})
+                rec.count("reference_decrypts")
+                if parts["plaintext"] != pt:
+                    rec.violation("reference-cannot-decrypt", f"session op {i}: the independent implementation does not recover the plaintext (blob names {(parts['kid']['l0'], parts['kid']['l1'], parts['kid']['l2'])}, clock in {(l0, l1, l2)})", {"shard": spec["name"], "op": i})
+            except Exception as e:
+                rec.violation("emitted-blob-not-template", f"session op {i}: {type(e).__name__}: {e}", {"shard": spec["name"], "op": i})
+            rec.case(("session", spec["name"], i), nontrivial=True)
+        rec.sample({"kind": "session", "hash": h, "ops": spec["n"], "blobs_made": len(made), "slots": slots})
+    finally:
+        loop.close()
+
+
 def run_shard(spec, rec: Recorder):
     if not common.calibrate(rec, "crypto", "gkdi", "sd", "cms", "rpc", "epm"):
         return
-    run_roundtrip(spec, rec)
+    {"roundtrip": run_roundtrip, "session": run_session}[spec["kind"]](spec, rec)
 
 
 def replay(body, rec: Recorder):
     q = body["tier"] == "quick"
     idx = int(body["shard"].split("-")[1])
+    if body["shard"].startswith("session"):
+        run_shard({"name": body["shard"], "seed": body["seed"], "tier": body["tier"], "kind": "session", "n": 150 if q else 4000}, rec)
+        rec.violations[:] = [v for v in rec.violations if v["mechanism"] == body["mechanism"]][:3]
+        return
     run_shard({"name": body["shard"], "seed": body["seed"], "tier": body["tier"], "kind": "roundtrip", "n": 40 if q else 1300, "big": (not q) and idx < 3}, rec)
     rec.violations[:] = [v for v in rec.violations if v["mechanism"] == body["mechanism"]][:3]
